@@ -61,16 +61,24 @@ def LimEnv.ofOpts {ε : Type} (mk : LimitKind → ε) (o : Opts)
 
 /-! ## what is consumed -/
 
-/-- an item handed over between two iterators; `toGuard` = from a node's operator to its guard -/
+/-- an item handed over between two iterators; `toGuard` = from a node's operator to its guard;
+    `late` = an `Err` had been handed over at the same place before this item (the consumer pulled
+    again after it had received an error) -/
 structure Handed (ε ρ : Type) where
   toGuard : Bool
   item : Except ε ρ
+  late : Bool
   deriving DecidableEq
 
 section trace
 variable {χ ρ ν ε κ α : Type} [DecidableEq κ]
 
-def handed (toGuard : Bool) (s : Stream ε ρ) : List (Handed ε ρ) := s.map (Handed.mk toGuard)
+def handedFrom (toGuard : Bool) : Bool → Stream ε ρ → List (Handed ε ρ)
+  | _, [] => []
+  | seen, x :: xs => ⟨toGuard, x, seen⟩ :: handedFrom toGuard (seen || !Item.isOk x) xs
+
+/-- the items handed over at one place, in order -/
+def handed (toGuard : Bool) (s : Stream ε ρ) : List (Handed ε ρ) := handedFrom toGuard false s
 
 /-- demand of the driver's `collect`: every item through the first `Err`, or all items and the end -/
 def driverDemand (s : Stream ε ρ) : Nat :=
@@ -102,7 +110,7 @@ def parkTrace {σ : Type} (L : LimEnv ε) (site : Site) (t : Trans σ ε ρ) (pa
     (childTrace : Nat → List (Handed ε ρ)) (pre : Nat) (d : Nat) : List (Handed ε ρ) :=
   unaryTrace L site (parkT t parks flushParks drop) (st, none) c childTrace pre d ++
     (parkEvents t parks flushParks st c (guardNeed L site ((parkT t parks flushParks drop).run (st, none) c) d)).map
-      (fun e => ⟨true, .error e⟩)
+      (fun e => ⟨true, .error e, false⟩)
 
 /-- `execute_order_by` / `execute_aggregate` drain their input when the iterator tree is BUILT
     (`execute_plan`), before anything is demanded of them: with `eager` the accounting includes that
@@ -127,7 +135,7 @@ def trace (eager : Bool) (S : Sem χ ρ ν ε κ α) (Q : Quirks) (L : LimEnv ε
     let d1 := guardNeed L site body d
     -- the failure parked while the seek value was evaluated is handed to the guard on its first pull
     handed true (body.take d1) ++
-      (if d1 = 0 then [] else (S.park L.coll value env S.empty).toList.map (fun e => ⟨true, .error e⟩)) ++
+      (if d1 = 0 then [] else (S.park L.coll value env S.empty).toList.map (fun e => ⟨true, .error e, false⟩)) ++
       (match S.eval L.coll value env S.empty with
        | .error _ => []
        | .ok v =>
